@@ -31,6 +31,38 @@ PROPS = {
                    "filter-is-an-order-preserving-partition lemma are part of the trusted logic; Output.format's flat-list construction is covered under C03",
         technique=TECH,
     ),
+    "C06": dict(
+        contracts=["c06"], frames=["normalize-only-in-p_id"], level="proof",
+        explanation="p_id: verbatim copy with the flag off, exactly one outer delimiter pair stripped with it on, in every lexer context; normalize_names is read nowhere else (frame)",
+        level_text="the single id production is proved for all identifier strings and all lexer contexts to copy the token verbatim (flag off) or strip exactly one outer delimiter pair (flag on); "
+                   "a frame obligation shows normalize_names is read nowhere else, so every other value is independent of the flag",
+        level_note="name-position token typing is covered by the lexer contracts; quoted-identifier tokenisation (lexer regexes) and downstream code that inspects delimiter characters are outside the deductive part",
+        technique=TECH,
+    ),
+    "C14": dict(
+        frames=["init-before-use", "class-level-state", "file-path-only-under-dump"], level="proof",
+        explanation="frame obligations over the real ASTs: every instance attribute written on the run() path is definitely assigned before use in each run (must-analysis with per-method summaries, "
+                    "PLY callbacks = any t_*/p_* method), no class-level mutable state is mutated through instances, file-system calls only under `if dump`",
+        level_text="static frame / definite-assignment obligations over the real source: no parser state is carried from one run() to the next, no class-level mutable state, no file access unless dump is requested",
+        level_note="sound over-approximate analysis (flow-insensitive in expressions, context-insensitive across calls); hash-seed independence of PLY table construction and other processes are not covered",
+        technique="contract-based deductive verification: frame / initialisation obligations decided by static analysis of the real ASTs",
+    ),
+    "C15": dict(
+        frames=["global-purity", "class-level-state"], level="proof",
+        explanation="frame obligations: construct and run paths never read PLY's process-global parser/lexer, write no module globals; the statement parse goes through self.yacc with lexer=self.lexer; "
+                    "with disjoint per-object footprints any interleaving of different objects' operations is equivalent to a sequential one",
+        level_text="global-purity frame obligations over the real source; the footprint-commutation argument (disjoint per-object state => interleavings equivalent to sequential runs) is stated, not machine-checked",
+        level_note="PLY's own module-level state is written by lex.lex()/yacc.yacc() but never read by the library (A-PLY); CPython thread scheduling inside PLY/re is not modelled",
+        technique="contract-based deductive verification: frame / global-purity obligations decided by static analysis of the real ASTs",
+    ),
+    "C16": dict(
+        contracts=["c16"], frames=["silent-only-in-p_error"], level="proof",
+        explanation="p_error raises DDLParserError iff not silent; t_error always raises the library's exception; run() raises SimpleDDLParserException for every unknown mode; "
+                    "frame: `silent` is read only in p_error and in the exception handler of parse_statement, so both settings execute identical paths on input that does not reach an error callback",
+        level_text="error callbacks proved against their contracts for all tokens and lexer contexts; frame obligation shows the silent flag cannot influence anything but error reporting",
+        level_note="that supported DDL never reaches p_error depends on the LALR tables (observed by the bounded runs, not proved); ValueError from int() on a non-numeric sequence option is a known finding",
+        technique=TECH,
+    ),
     "C17": dict(
         contracts=["c17"], level="proof",
         explanation="function-level contracts on the sequence productions (exact key, exact integer, frame on every other key)",
